@@ -592,6 +592,8 @@ func runC06(c *core.Ctx) {
 	runC06R4(c, e)
 
 	// ---- R5 (shared with C02-R1): a payload whose write returned success before Close has a sender responsible for it
+	c.Rule("R6", "one release of the sender flag per ownership, none after hand-over (shared with C02-R8): a stale release lets Close see idle while a sender runs", 1)
+	importObligations(c, runC02, "R6", func(o *core.Obligation) bool { return o.Rule == "R8" })
 	c.Rule("R5", "every successful enqueue is followed by CAS(running, idle->running) on every path (accepted before Close => owned by a sender)", 1)
 	ruleEnqueueRingsBell(c, e, "R5")
 }
